@@ -182,6 +182,9 @@ func (d *dumper) checkClause(p *packages.Package, fd *ast.FuncDecl, loops []ast.
 			}
 		case *ast.RangeStmt:
 			pos = l.Body.Lbrace + 1
+			if c.kind == "preserves" || c.kind == "exits" {
+				pos = l.Body.Rbrace
+			}
 		}
 	}
 	// result types
